@@ -499,7 +499,16 @@ class Flow:
         if a not in defs: self.stale.add(a)
 
     def uses(self, e, defs, fns, depth):
+        called = {id(n.func) for n in ast.walk(e) if isinstance(n, ast.Call)}
         for n in ast.walk(e):
+            # a local function / own method used as a VALUE (map(evolve, pop), key=rank, executor.submit(self._step, x), partial(f, ...)): it runs all the same
+            if isinstance(n, ast.Name) and isinstance(n.ctx, ast.Load) and n.id in fns and id(n) not in called and depth < 8:
+                self.block(fns[n.id].body, set(defs), dict(fns), depth + 1)
+            if isinstance(n, ast.Attribute) and isinstance(n.ctx, ast.Load) and is_self_attr(n) and n.attr in self.methods and id(n) not in called and depth < 8 \
+                    and n.attr not in ("_init_agent", "optimize"):
+                q = self.quiet; self.quiet = id(self.methods[n.attr]) in self.base_nodes
+                self.block(self.methods[n.attr].body, set(defs), {}, depth + 1)
+                self.quiet = q
             if isinstance(n, ast.Call):
                 f = n.func
                 if is_self_attr(f) and f.attr in self.methods and depth < 8:
